@@ -82,12 +82,18 @@ def restriction_models(ex, w):
     def glob(it, prefix, **kw):
         return R(w.glob_hit, "StrGlobMatch(fullver prefix)")
 
+    def sem(r):
+        # the two constant restrictions (packages.AlwaysTrue / AlwaysFalse) are real objects: their match is their constant
+        if r is G.packages.AlwaysTrue or r is G.packages.AlwaysFalse:
+            return z3.BoolVal(r is G.packages.AlwaysTrue)
+        return r.sem
+
     def and_(it, *rs, negate=False, tag=None, **kw):
-        m = z3.And(*[r.sem for r in rs]) if rs else z3.BoolVal(True)
+        m = z3.And(*[sem(r) for r in rs]) if rs else z3.BoolVal(True)
         return R(z3.Not(m) if negate else m, "And" + ("(negated)" if negate else ""))
 
     def or_(it, *rs, negate=False, **kw):
-        m = z3.Or(*[r.sem for r in rs]) if rs else z3.BoolVal(False)
+        m = z3.Or(*[sem(r) for r in rs]) if rs else z3.BoolVal(False)
         return R(z3.Not(m) if negate else m, "Or")
     return {G.atom_restricts.VersionMatch: version_match, G.atom_restricts.SlotDep: slot_dep, G.packages.PackageRestriction: pkg_restriction,
             G.values.StrGlobMatch: glob, G.packages.AndRestriction: and_, G.packages.OrRestriction: or_, G.packages.KeyedAndRestriction: and_}
@@ -105,7 +111,8 @@ def range_spec(w, op, glob, has_slot, base_has_rev):
         rb = w.rb.t
         m = z3.And(same, {"rlt": w.rp.t < rb, "rle": w.rp.t <= rb, "rge": w.rp.t >= rb, "rgt": w.rp.t > rb}[op])
     if has_slot:
-        m = z3.And(m, w.pslot.t == w.slot.t)
+        # GLSA format: slot="*" (the DTD's default) means any slot
+        m = z3.And(m, z3.Or(w.slot.t == z3.StringVal("*"), w.pslot.t == w.slot.t))
     return m
 
 
@@ -152,10 +159,10 @@ def t_range(ex):
     out = call(it, it.target(FILE, "GlsaDirSet.generate_restrict_from_range"), me, Node(), negate=negate)
     tag = f"{op}{'_glob' if glob else ''}{'_slot' if has_slot else ''}{'_negated' if negate else ''}"
     if out.raised:
-        # refused ranges: glob with a non-eq operator; 'rlt' of revision 0 (an empty set)
-        legit = (glob and op != "eq") or (op == "rlt")
-        ex.oblige(f"{P}.raises.only_for_meaningless_ranges", out.raised_cls(ValueError) and legit and
-                  (True if (glob and op != "eq") else SBool(w.rb.t == 0)), kind="exceptional-postcondition")
+        # refused ranges: a glob with a non-eq operator is not in the format.  'rlt' of revision 0 is in the format: it is a range nothing
+        # satisfies, and refusing it would discard the other ranges of its package entry with it
+        legit = glob and op != "eq"
+        ex.oblige(f"{P}.raises.only_for_ranges_outside_the_format", out.raised_cls(ValueError) and legit, kind="exceptional-postcondition")
         return
     ex.cover("range")
     r = out.value
@@ -242,22 +249,18 @@ def enum_advisories(seed):
             m = same and {"rlt": rp < rb, "rle": rp <= rb, "rge": rp >= rb, "rgt": rp > rb}[op]
         else:
             m = {"lt": c < 0, "le": c <= 0, "eq": c == 0, "ge": c >= 0, "gt": c > 0}[op]
-        return m and (not slot or p.slot == slot)
+        return m and (not slot or slot == "*" or p.slot == slot)
     specs = []
     for op in OPS:
         for base in ("1.0", "1.0-r1"):
             for slot in ("", "1"):
                 specs.append((op, base, slot, False))
-    specs += [("eq", "1.0", "", True), ("eq", "1", "1", True)]
+    specs += [("eq", "1.0", "", True), ("eq", "1", "1", True), ("lt", "1.0-r2", "*", False), ("rge", "1.0", "*", False), ("eq", "1.0", "*", True)]
     cases, fails = 0, []
     with tempfile.TemporaryDirectory(dir="/var/tmp") as d:
         n = 0
         for (vop, vbase, vslot, vglob), u in [(v, u) for v in specs for u in ([None] + specs[seed % 5:: 5])]:
             uop, ubase, uslot, uglob = u if u else (None, None, None, None)
-            if vop == "rlt" and "-r" not in vbase:
-                continue
-            if uop == "rlt" and "-r" not in ubase:
-                continue
             for arch in ("*", "x86 amd64"):
                 n += 1
                 def tag(kind, op, base, slot, glob):
@@ -304,7 +307,7 @@ def _in_range(op, base, slot, glob, p):
         m = same and {"rlt": rp < rb, "rle": rp <= rb, "rge": rp >= rb, "rgt": rp > rb}[op]
     else:
         m = {"lt": c < 0, "le": c <= 0, "eq": c == 0, "ge": c >= 0, "gt": c > 0}[op]
-    return m and (not slot or p.slot == slot)
+    return m and (not slot or slot == "*" or p.slot == slot)
 
 
 def enum_repo_scan(seed):
@@ -333,9 +336,7 @@ def enum_repo_scan(seed):
     def rng():
         op = rnd.choice(plain_ops)
         base = rnd.choice(("1.0", "1.0-r1", "1.1"))
-        if op == "rlt" and "-r" not in base:
-            base = "1.0-r1"
-        return op, base, rnd.choice(("", "", "1"))
+        return op, base, rnd.choice(("", "", "1", "*"))
     with tempfile.TemporaryDirectory(dir=os.environ.get("PYVC_SCRATCH", "/var/tmp")) as d:
         for round_ in range(400 if thorough else 120):
             for f in os.listdir(d):
